@@ -186,6 +186,16 @@ func observe(lits *mstore.Literals, o mstore.Op, ob mstore.Obs, before, after ms
 				vs = append(vs, violation{Kind: "ok-but-not-present", Detail: fmt.Sprintf("%s answered OK %v but the bytes are not under that UID", o, ob.Pairs)})
 			}
 		}
+		if ob.StoreFailed {
+			// local storage fault while keeping the recovery copy: the client must not be told OK, nothing half-done may stay
+			if ob.Class == "ok" {
+				vs = append(vs, violation{Kind: "rejected-but-ok", Detail: o.String()})
+			}
+			if !sameRows(rb, ra) {
+				vs = append(vs, violation{Kind: "failed-recovery-left-a-trace", Detail: o.String() + " changed the recovery mailbox although the copy could not be stored"})
+			}
+			break
+		}
 		if o.Remote == "fail" && tgtBefore != nil {
 			if ob.Class == "ok" {
 				vs = append(vs, violation{Kind: "rejected-but-ok", Detail: o.String()})
@@ -418,7 +428,7 @@ func boolInt(b bool) int {
 
 func runOps(ops []mstore.Op, dedup bool) (*violation, error) {
 	lits := newLits()
-	w, err := mstore.NewWorld(mstore.Config{Burn: 20, BurnStep: 60, Dedup: dedup}, lits)
+	w, err := mstore.NewWorld(mstore.Config{Burn: 20, BurnStep: 60, Dedup: dedup, Store: &mstore.FailingStore{}}, lits)
 	if err != nil {
 		return nil, err
 	}
@@ -483,7 +493,7 @@ func runC20(ctx *common.Ctx) error {
 	}
 	runCase := func(cs *c20Case, next func(d mstore.Dump, i int) *mstore.Op) error {
 		lits := newLits()
-		w, err := mstore.NewWorld(mstore.Config{Burn: 20, BurnStep: 60, Dedup: cs.Dedup}, lits)
+		w, err := mstore.NewWorld(mstore.Config{Burn: 20, BurnStep: 60, Dedup: cs.Dedup, Store: &mstore.FailingStore{}}, lits)
 		if err != nil {
 			return err
 		}
@@ -647,6 +657,21 @@ func runC20(ctx *common.Ctx) error {
 			return err
 		}
 		res.Count("scenario:retries-of-one-literal")
+	}
+	// the local store refuses the recovery copy once (disk full, I/O error): the client is told NO; when the same bytes are
+	// rejected again with the store working they must be kept - nothing may remember the failed attempt
+	{
+		sf := func(l int) mstore.Op { return mstore.Op{Kind: "append", Name: "INBOX", Lit: l, Remote: "fail", StoreFails: true} }
+		rej := func(l int) mstore.Op { return mstore.Op{Kind: "append", Name: "INBOX", Lit: l, Remote: "fail"} }
+		for _, ops := range [][]mstore.Op{
+			{sf(0), rej(0), rej(0)},
+			{rej(1), sf(2), sf(12), rej(12), rej(2), {Kind: "restart"}, sf(3), rej(3), rej(2)},
+		} {
+			if err := fixed(ops); err != nil {
+				return err
+			}
+		}
+		res.Count("scenario:recovery-copy-cannot-be-stored")
 	}
 	// one recovered message loses its cache file, restart: the hash map is rebuilt from the readable ones, so a repeated
 	// rejected APPEND of an INTACT recovered message is still recognised (oracle only: the damaged message cannot be fetched)
